@@ -138,6 +138,9 @@ fn exec(line: &str) -> (String, Option<String>, bool) {
     }
     let _ = catch(|| root.dispose());
     let verdict = verdict.map(|v| if d26 { format!("[view-write-before-mount] {v}") } else { v });
+    // the model describes the intended behaviour, which known finding D26 departs from (also invisibly: the mounted
+    // nodes of such a region are no longer the ones its effects own): these cases are judged by the oracle alone
+    if d26 { return ("unmodelled: a parentless region re-ran before mounting (D26)".into(), verdict, !writes.is_empty()); }
     (out.join(" | "), verdict, !writes.is_empty())
 }
 
